@@ -120,6 +120,16 @@ impl JobView {
                     j.id, j.counters, cnt
                 ));
             }
+            // C13 "the job state follows the documented rules" (docs/jobs/jobs.md, in this order): a running task -> RUNNING; a
+            // waiting task -> WAITING; a failed task -> FAILED; an aborted task -> ABORTED; a canceled task -> CANCELED; else
+            // FINISHED (OPENED while the job is open) -- judged on the task states, not on what the code derives its answer from
+            {
+                let n = |c: char| j.tasks.iter().filter(|(_, s)| *s == c).count();
+                let want = if n('R') > 0 { "running" } else if n('W') > 0 { "waiting" } else if n('X') > 0 { "failed" } else if n('A') > 0 { "aborted" } else if n('C') > 0 { "canceled" } else if j.open { "opened" } else { "finished" };
+                if st != want && st != "!panic" {
+                    self.lines.push(format!("mon FAIL c13.state rule-order job {} is reported as {} but its task states {} give {}", j.id, st, list(j.tasks.iter().map(|(t, s)| format!("{t}:{s}"))), want));
+                }
+            }
         }
         if let Some(live) = live {
             self.lines.push(format!("out live {}", tids(live)));
@@ -678,6 +688,13 @@ impl Sim {
     pub fn client_action(&mut self, op_line: String, msg: FromClientMessage) {
         let is_submit = matches!(msg, FromClientMessage::Submit(..));
         let is_forget = matches!(msg, FromClientMessage::ForgetJob(..));
+        // C08 "tasks of other jobs are unaffected": the ids in the scheduler's queues before a cancel request
+        let queued_before: Vec<TaskId> = if matches!(msg, FromClientMessage::Cancel(..)) {
+            let snap = self.world.server.core_snapshot();
+            snap.queues.iter().flat_map(|q| q.ready.iter().flat_map(|(_, ids)| ids.iter().copied()).chain(q.prefill.iter().flat_map(|(_, ids)| ids.iter().copied())).collect::<Vec<_>>()).collect()
+        } else {
+            vec![]
+        };
         // the time limit every task of the submit was given
         let submit_tls: Vec<(Option<u32>, Option<std::time::Duration>)> = match &msg {
             FromClientMessage::Submit(r, _) => match &r.submit_desc.task_desc {
@@ -762,6 +779,15 @@ impl Sim {
                 }
             }
             Some(ToClientMessage::CancelJobResponse(rs)) => {
+                {
+                    let cancelled: Vec<u32> = rs.iter().map(|(j, _)| j.as_num()).collect();
+                    let snap = self.world.server.core_snapshot();
+                    let after: BTreeSet<TaskId> = snap.queues.iter().flat_map(|q| q.ready.iter().flat_map(|(_, ids)| ids.iter().copied()).chain(q.prefill.iter().flat_map(|(_, ids)| ids.iter().copied())).collect::<Vec<_>>()).collect();
+                    let dropped: Vec<String> = queued_before.iter().filter(|t| !cancelled.contains(&t.job_id().as_num()) && !after.contains(t)).map(|t| format!("{}.{}", t.job_id().as_num(), t.job_task_id().as_num())).collect();
+                    if !dropped.is_empty() {
+                        self.job.lines.push(format!("mon FAIL c08.other_jobs queued-task-dropped the cancel of job(s) {cancelled:?} removed tasks {dropped:?} of OTHER jobs from the scheduler's queues"));
+                    }
+                }
                 for (j, r) in rs {
                     let t = match r {
                         CancelJobResponse::Canceled(ts, n) => {
